@@ -20,7 +20,7 @@ type hcall struct {
 	body string
 }
 
-func (r *Run) c13Scenario(trans string, v, Q, N int, slow bool) {
+func (r *Run) c13Scenario(trans string, v, Q, N int, slow bool, closeWhileBusy bool) {
 	g := r.rng
 	var mu sync.Mutex
 	var calls []hcall
@@ -109,6 +109,13 @@ func (r *Run) c13Scenario(trans string, v, Q, N int, slow bool) {
 			return
 		}
 		time.Sleep(20 * time.Millisecond)
+		if closeWhileBusy {
+			// the connection goes away while the dispatcher is still inside the handler: the frames already
+			// queued must still be delivered (the dispatcher drains its queue when it sees the close)
+			s.lk.drop()
+			s.tc.log.waitCount("close conn", 1, 2*time.Second)
+			time.Sleep(20 * time.Millisecond)
+		}
 		close(release)
 		for i := 0; i <= N; i++ {
 			events = append(events, "K")
@@ -144,7 +151,7 @@ func (r *Run) c13Scenario(trans string, v, Q, N int, slow bool) {
 	taken := s.tc.log.count("got packet")
 	out := fmt.Sprintf("calls=%s drops=%d taken=%d", callStr, drops, taken)
 	r.emit(fmt.Sprintf("dp.run %d 50:0.1,51:2,52:3.4.5,1:6,2:6,3:6 %s", Q, strings.Join(events, " ")), out, true)
-	r.count(fmt.Sprintf("c13.%s.Q%d.slow%v", trans, Q, slow))
+	r.count(fmt.Sprintf("c13.%s.Q%d.slow%v.close%v", trans, Q, slow, closeWhileBusy))
 	// direct oracle
 	for _, c := range got {
 		ok := false
@@ -242,11 +249,17 @@ func runC13(r *Run) {
 		Q := []int{1, 2, 3, 5, 8, 16}[g.Intn(6)]
 		slow := i%3 != 2
 		N := 3 + g.Intn(24)
-		r.c13Scenario(trans, 1+g.Intn(2), Q, N, slow)
+		r.c13Scenario(trans, 1+g.Intn(2), Q, N, slow, false)
 	}
 	if r.thorough() {
 		// a burst larger than one TCP read buffer (1 MiB): 40 pushes of 40 KiB
-		r.c13Scenario("tcp", 1, 16, 12, true)
+		r.c13Scenario("tcp", 1, 16, 12, true, false)
+	}
+	// connection closed while the dispatcher is busy, 1..3 frames queued
+	for _, trans := range []string{"tcp", "ws"} {
+		for n := 1; n <= 3; n++ {
+			r.c13Scenario(trans, 1, 8, n, true, true)
+		}
 	}
 	r.c13AcrossReconnect()
 }
